@@ -26,13 +26,12 @@ Qed.
 Lemma removelast_snoc : forall (s : str) c, removelast (s ++ [c]) = s.
 Proof. intros. rewrite removelast_app by discriminate. simpl. apply app_nil_r. Qed.
 
-Lemma pickle_same : forall o t, wf_term t = true -> same_as t (unpickle o t) = true.
+Lemma pickle_same : forall o t, wf_term t = true -> same_strict t (unpickle o t) = true.
 Proof.
   intros o t W. destruct t as [s|s|s|lex dt lang]; simpl in *.
   - apply str_eqb_refl.
   - apply str_eqb_refl.
-  - apply andb_true_iff in W as [_ W]. destruct s as [|c r]; [discriminate|]. simpl.
-    apply negb_true_iff in W. rewrite W. simpl. rewrite N.eqb_refl. apply str_eqb_refl.
+  - apply str_eqb_refl.
   - apply andb_true_iff in W as [_ W]. unfold mk_literal.
     destruct dt as [d|], lang as [l|]; try discriminate.
     + simpl. rewrite !str_eqb_refl. reflexivity.
@@ -808,9 +807,7 @@ Proof.
   - destruct (valid_uri u) eqn:V; [|discriminate]. inversion E; subst. cbn [app].
     apply from_n3_iri; auto.
   - inversion E; subst. reflexivity.
-  - inversion E; subst. cbn [wf_term] in W. apply andb_true_iff in W as [_ W].
-    destruct u as [|x r]; [discriminate|]. apply negb_true_iff in W.
-    cbn [from_n3 mk_var]. rewrite N.eqb_refl. cbn [mk_var]. rewrite W. reflexivity.
+  - inversion E; subst. reflexivity.
   - cbn [wf_term] in W. apply andb_true_iff in W as [CP W]. cbn [respell_ok] in R.
     destruct (n3_quoted_lex lex dt R) as [NQ _]. rewrite NQ in E.
     pose proof (n3_lex_cp lex dt CP) as CP'.
@@ -836,46 +833,47 @@ Proof.
       rewrite from_n3_quote_encode; auto.
 Qed.
 
+Lemma tkf_parts : forall c, tkf c = 0 ->
+  match t_term c with
+  | Lit lex dt _ => forall l, ctor_lex (t_orc c) (n3_lex lex dt) dt = Some l -> l = lex
+  | _ => True
+  end.
+Proof.
+  intros c H. unfold tkf in H. destruct (t_term c) as [u|u|u|lex dt lang]; auto.
+  intros l E. rewrite E in H. destruct (str_eqb l lex) eqn:X; [|discriminate].
+  apply str_eqb_eq. exact X.
+Qed.
+
 Lemma twf_parts : forall c, twf c = true ->
   wf_term (t_term c) = true /\ respell_ok (t_term c) /\
   match t_term c with
-  | Lit lex dt _ =>
-      match ctor_lex (t_orc c) lex dt, ctor_lex (t_orc c) (n3_lex lex dt) dt with
-      | Some a, Some b => a = b
-      | _, _ => True
-      end
+  | Lit lex dt _ => exists l, ctor_lex (t_orc c) (n3_lex lex dt) dt = Some l
   | _ => True
   end.
 Proof.
   intros c H. unfold twf in H. apply andb_true_iff in H as [W H]. split; auto.
   destruct (t_term c) as [u|u|u|lex dt lang]; cbn [respell_ok]; auto.
-  destruct (respelled lex dt) eqn:R.
-  - apply andb_true_iff in H as [P H]. split; auto.
-    destruct (ctor_lex (t_orc c) lex dt), (ctor_lex (t_orc c) (n3_lex lex dt) dt); auto.
-    apply str_eqb_eq. exact H.
-  - split; [discriminate|].
-    assert (n3_lex lex dt = lex) as E.
-    { unfold n3_lex, respelled in *. destruct dt as [d|]; auto. destruct (smem d infnan_types); auto.
-      destruct (float_class lex); auto; discriminate. }
-    rewrite E. destruct (ctor_lex (t_orc c) lex dt); auto.
+  apply andb_true_iff in H as [P C]. split.
+  - intro R. rewrite R in P. exact P.
+  - destruct (ctor_lex (t_orc c) (n3_lex lex dt) dt) as [l|]; [eauto|discriminate].
 Qed.
 
-Theorem tspec_ok_model : forall c, twf c = true -> tspec_ok c (tmodel_obs c) = true.
+Theorem tspec_ok_model : forall c, twf c = true -> tkf c = 0 -> tspec_ok c (tmodel_obs c) = true.
 Proof.
-  intros c H. destruct (twf_parts c H) as [W [R O]].
-  unfold tspec_ok, tmodel_obs. cbn [t_n3 t_from t_pickle t_flags forallb andb]. rewrite andb_true_r.
-  apply andb_true_iff. split; [apply pickle_same; exact W|].
+  intros c H K. destruct (twf_parts c H) as [W [R O]]. pose proof (tkf_parts c K) as F.
+  unfold tspec_ok, tmodel_obs. cbn [t_n3 t_from t_pickle t_flags]. rewrite K. cbn [N.eqb forallb andb].
+  rewrite andb_true_r.
+  apply andb_true_iff. split; [apply pickle_same; assumption|].
   destruct (n3 (t_term c)) as [s|] eqn:E.
   - rewrite (from_n3_n3_wf (t_orc c) _ s W R E).
-    destruct (t_term c) as [u|u|u|lex dt lang]; cbn [normal_form same_wres]; try apply term_same_refl.
-    cbn [wf_term] in W. apply andb_true_iff in W as [_ W]. unfold mk_literal.
+    destruct (t_term c) as [u|u|u|lex dt lang]; cbn [same_strict]; try apply term_same_refl.
+    cbn [wf_term] in W. apply andb_true_iff in W as [_ W]. destruct O as [l O]. specialize (F l O). subst l.
+    unfold mk_literal.
     destruct dt as [d|], lang as [l|]; try discriminate.
-    + destruct (ctor_lex (t_orc c) lex (Some d)) as [a|]; [|reflexivity].
-      destruct (ctor_lex (t_orc c) (n3_lex lex (Some d)) (Some d)) as [b|]; [|reflexivity].
-      subst. apply term_same_refl.
+    + rewrite O. apply term_same_refl.
     + apply andb_true_iff in W as [VL _]. destruct l as [|x l]; [discriminate|]. rewrite VL.
-      cbn [n3_lex ctor_lex same_wres]. apply term_same_refl.
-    + cbn [n3_lex ctor_lex same_wres]. apply term_same_refl.
+      cbn [same_strict]. apply term_same_refl.
+    + cbn [n3_lex ctor_lex same_strict]. apply term_same_refl.
   - destruct (t_term c) as [u|u|u|lex dt lang]; cbn [n3] in E; try discriminate.
     + destruct (valid_uri u); [discriminate|reflexivity].
     + destruct (truthy lang); [discriminate|]. destruct (truthy dt); discriminate.
@@ -883,15 +881,16 @@ Qed.
 
 (* reading of the checker *)
 Lemma tspec_ok_reads : forall c o, tspec_ok c o = true ->
-  same_as (t_term c) (t_pickle o) = true
-  /\ (forall s, t_n3 o = Some s -> same_wres (normal_form (t_orc c) (t_term c)) (t_from o) = true)
+  (exists t', t_pickle o = WTerm t' /\ term_same (t_term c) t' = true)
+  /\ (forall s, t_n3 o = Some s -> exists t', t_from o = WTerm t' /\ term_same (t_term c) t' = true)
   /\ (t_n3 o = None -> exists s, t_term c = IRI s /\ valid_uri s = false)
   /\ ~ In (Some false) (t_flags o).
 Proof.
   intros c o H. unfold tspec_ok in H.
   apply andb_true_iff in H as [H H3]. apply andb_true_iff in H as [H1 H2].
-  repeat split; auto.
-  - intros s E. rewrite E in H2. exact H2.
+  repeat split.
+  - destruct (t_pickle o) as [| |t']; try discriminate. eauto.
+  - intros s E. rewrite E in H2. destruct (t_from o) as [| |t']; try discriminate. eauto.
   - intro E. rewrite E in H2. destruct (t_term c); try discriminate. exists s. split; auto.
     apply negb_true_iff in H2. exact H2.
   - intro Hin. rewrite forallb_forall in H3. specialize (H3 _ Hin). discriminate.
@@ -899,20 +898,25 @@ Qed.
 
 (* the literal the constructor leaves alone reads back as itself *)
 Corollary from_n3_n3_fixed : forall o lex dt lang s,
-  wf_term (Lit lex dt lang) = true -> respelled lex dt = false -> ctor_lex o lex dt = Some lex ->
-  n3 (Lit lex dt lang) = Some s -> same_as (Lit lex dt lang) (from_n3 o s) = true.
+  wf_term (Lit lex dt lang) = true -> respell_ok (Lit lex dt lang) -> ctor_lex o (n3_lex lex dt) dt = Some lex ->
+  n3 (Lit lex dt lang) = Some s -> same_strict (Lit lex dt lang) (from_n3 o s) = true.
 Proof.
   intros o lex dt lang s W R F E.
-  rewrite (from_n3_n3_wf o _ s W) by (auto; cbn [respell_ok]; rewrite R; discriminate).
-  assert (n3_lex lex dt = lex) as NL.
-  { unfold n3_lex, respelled in *. destruct dt as [d|]; auto. destruct (smem d infnan_types); auto.
-    destruct (float_class lex); auto; discriminate. }
-  rewrite NL. cbn [wf_term] in W. apply andb_true_iff in W as [_ W]. unfold mk_literal.
+  rewrite (from_n3_n3_wf o _ s W R E).
+  cbn [wf_term] in W. apply andb_true_iff in W as [_ W]. unfold mk_literal.
   destruct dt as [d|], lang as [l|]; try discriminate.
   - rewrite F. apply term_same_refl.
-  - apply andb_true_iff in W as [VL _]. destruct l as [|x l]; [discriminate|]. rewrite VL. apply term_same_refl.
-  - apply term_same_refl.
+  - apply andb_true_iff in W as [VL _]. destruct l as [|x l]; [discriminate|]. rewrite VL.
+    cbn [same_strict]. apply term_same_refl.
+  - cbn [n3_lex ctor_lex same_strict]. apply term_same_refl.
 Qed.
+
+(* ... and F7a on the model: a literal built with normalize=False does not *)
+Definition f7a_witness : tcase := {| t_term := Lit [48; 49] (Some xsd_integer) None; t_orc := [] |}.
+Definition f7a_text : str := match n3 (t_term f7a_witness) with Some s => s | None => [] end.
+Lemma from_n3_nonnormal_refuted : exists c s, twf c = true /\ tkf c = 1 /\ n3 (t_term c) = Some s
+  /\ from_n3 (t_orc c) s = WTerm (Lit [49] (Some xsd_integer) None) /\ same_strict (t_term c) (from_n3 (t_orc c) s) = false.
+Proof. exists f7a_witness, f7a_text. vm_compute. repeat split; reflexivity. Qed.
 
 (* ------------------------------------------------------------------ *)
 (* the code as it was before the "fix:" commits (findings F7a, F7b, F7e), kept so that the refutations stay checkable *)
@@ -949,21 +953,13 @@ Proof. vm_compute. reflexivity. Qed.
 (* ------------------------------------------------------------------ *)
 (* suite "pickler" *)
 
-Lemma unpickle_not_any : forall o t, unpickle o t <> WAny.
-Proof.
-  intros o t. destruct t as [s|s|s|lex dt lang]; cbn [unpickle]; try discriminate.
-  - destruct s as [|c r]; cbn [mk_var]; [discriminate|]. destruct (N.eqb c 63); discriminate.
-  - unfold mk_literal. destruct lang as [[|x l]|], dt as [d|]; try discriminate;
-      destruct (valid_lang (x :: l)); discriminate.
-Qed.
-
 Lemma all_same_unpickle : forall o l, forallb wf_term l = true -> all_same l (map (unpickle o) l) = true.
 Proof.
-  intros o l. induction l as [|t l IH]; intro H; auto.
+  intros o l. induction l as [|t l IH]; intros H; auto.
   cbn [forallb] in H. apply andb_true_iff in H as [W H]. cbn [map all_same].
-  pose proof (pickle_same o t W) as P. pose proof (unpickle_not_any o t) as N.
-  destruct (unpickle o t) as [| |t']; try congruence; try discriminate.
-  cbn [same_as] in P. rewrite P. apply IH. exact H.
+  pose proof (pickle_same o t W) as P.
+  destruct (unpickle o t) as [| |t']; try discriminate.
+  cbn [same_strict] in P. rewrite P. apply IH; assumption.
 Qed.
 
 Theorem pspec_ok_model : forall ts, forallb wf_term ts = true -> pspec_ok ts (pmodel_obs ts) = true.
@@ -971,3 +967,8 @@ Proof.
   intros ts H. unfold pspec_ok, pmodel_obs. apply all_same_unpickle.
   rewrite forallb_app, H. reflexivity.
 Qed.
+
+(* F7n: before its repair __reduce__ passed the bare name and from_n3 stripped the '?' itself, so the constructor
+   stripped a second one *)
+Lemma prefix_variable_refuted : mk_var [63; 120] = WTerm (Var [120]) /\ unpickle [] (Var [63; 120]) = WTerm (Var [63; 120]).
+Proof. vm_compute. auto. Qed.
